@@ -796,10 +796,15 @@ func Execute(spec *Spec) *Trace {
 						desc += fmt.Sprintf(" g%d: %d iterations (%.1fs) with pending=%d inprogress=%d skip=%d done=%d;", gi, tick-st.startTick, time.Since(st.since).Seconds(), p, ip, sk, dn)
 					}
 					if all && desc != "" && atomic.LoadInt32(&r.live) == 0 {
-						tr.Stalled = "no task function is executing, yet every graph that has not returned idles:" + desc
-						abandon()
-						returned = ng
-						break
+						if blocked, gdesc := taskGoroutinesBlocked(); blocked && atomic.LoadInt32(&r.live) == 0 {
+							tr.Stalled = "no task function is executing, yet every graph that has not returned idles:" + desc + " " + gdesc
+							abandon()
+							returned = ng
+							break
+						}
+						for gi := range stab {
+							stab[gi].init = false // a task goroutine is only waiting for the CPU: start over
+						}
 					}
 				} else {
 					for gi := range stab {
@@ -873,9 +878,13 @@ func Execute(spec *Spec) *Trace {
 					np := len(r.parked)
 					r.mu.Unlock()
 					if np == 0 {
-						tr.Stalled = fmt.Sprintf("no task function is executing, yet the scheduler has idled for %d iterations (%.1fs) with pending=%d inprogress=%d skip=%d done=%d", stable, time.Since(stableSince).Seconds(), p, ip, sk, dn)
-						abandon()
-						break CONTROL
+						if blocked, gdesc := taskGoroutinesBlocked(); blocked && atomic.LoadInt32(&r.live) == 0 {
+							tr.Stalled = fmt.Sprintf("no task function is executing, yet the scheduler has idled for %d iterations (%.1fs) with pending=%d inprogress=%d skip=%d done=%d; %s", stable, time.Since(stableSince).Seconds(), p, ip, sk, dn, gdesc)
+							abandon()
+							break CONTROL
+						}
+						stable = 0 // a task goroutine is only waiting for the CPU: start over
+						stableSince = time.Now()
 					}
 				}
 				if ip == 0 && dn < p+ip+sk+dn {
@@ -1150,6 +1159,55 @@ func allDagGoroutinesBlocked() (bool, string) {
 	}
 	sort.Strings(desc)
 	return true, strings.Join(desc, ", ")
+}
+
+// taskGoroutinesBlocked - goroutine dump used before a "no progress" verdict: true when every goroutine started by Graph.Run
+// (frames dag.(*Graph).Run.func...) is blocked on a channel operation or a lock - or no such goroutine exists - in two dumps
+// taken 200 ms apart. A task goroutine that is merely waiting for the CPU on a loaded machine shows as runnable/running and
+// vetoes the verdict; schedulers (idling, sleeping on their ticker) are not looked at: they only poll.
+func taskGoroutinesBlocked() (bool, string) {
+	snap := func() (map[string]string, bool) {
+		buf := make([]byte, 4<<20)
+		buf = buf[:runtime.Stack(buf, true)]
+		states := map[string]string{}
+		for _, g := range strings.Split(string(buf), "\n\n") {
+			if !strings.Contains(g, "go-getoptions/dag.(*Graph).Run.func") {
+				continue
+			}
+			m := goroutineHeader.FindStringSubmatch(g)
+			if m == nil {
+				continue
+			}
+			states[m[1]] = m[2]
+			switch m[2] {
+			case "chan send", "chan receive", "select (no cases)", "semacquire", "sync.Mutex.Lock", "sync.RWMutex.Lock", "sync.RWMutex.RLock", "sync.Cond.Wait", "chan send (nil chan)", "chan receive (nil chan)":
+			default:
+				return states, false
+			}
+		}
+		return states, true
+	}
+	a, okA := snap()
+	if !okA {
+		return false, ""
+	}
+	time.Sleep(200 * time.Millisecond)
+	b, okB := snap()
+	if !okB || len(a) != len(b) {
+		return false, ""
+	}
+	var desc []string
+	for id, st := range a {
+		if b[id] != st {
+			return false, ""
+		}
+		desc = append(desc, "goroutine "+id+" ["+st+"]")
+	}
+	sort.Strings(desc)
+	if len(desc) == 0 {
+		return true, "no task goroutine exists"
+	}
+	return true, "task goroutines: " + strings.Join(desc, ", ")
 }
 
 // TaskName - ID of task i. With Colon the first four IDs are chosen so that two different edges (a task depends on tasks with
